@@ -353,3 +353,10 @@ async def ping_timestamp_moves_only_on_a_reply():
     Ping.lp = clock_now()
     await spa._ping_loop()
     cover("loop-exits-when-closed", True)
+
+
+# the multi-segment block request (refresh / initial block) holds the same protocol lock as every other caller:
+# "at most the retry count", "reports failure" and "all callers complete" need its retry accounting too (shared with C01)
+from contracts import c01_transfer
+harness(prop="C06", target="geckolib.driver.async_spastruct:GeckoAsyncStructure.get", name="block_request_spends_one_retry_per_attempt_and_terminates",
+        uses=["env_any_segment_or_timeout"], loops=["get_retry_loop", "get_segment_loop"])(c01_transfer.async_transfer_all_or_nothing)
